@@ -7,5 +7,5 @@ CONSTANTS
     MaxPostings = 2
     MaxLocs = 2
     Dev = {}
-INVARIANTS Framed Consumed
+INVARIANT AllInv
 CHECK_DEADLOCK FALSE
